@@ -207,18 +207,133 @@ def parserShapeOk : Bool := {'true' if p['ok'] else 'false'}{why}
 """
 
 
+
+# ------------------------------------------------------------------------------------------------
+# resolver.py
+# ------------------------------------------------------------------------------------------------
+_PYOP = {"Add": "add", "Sub": "sub", "Pow": "pow", "MatMult": "matmul", "Mult": "mul",
+         "Div": "truediv", "BitOr": "or_"}
+GOLDEN = os.path.join(os.path.dirname(os.path.abspath(__file__)), "golden")
+
+
+def _is_accept(node, side):
+    """`expr.<side>.accept(self)`"""
+    return (isinstance(node, ast.Call) and isinstance(node.func, ast.Attribute)
+            and node.func.attr == "accept" and isinstance(node.func.value, ast.Attribute)
+            and node.func.value.attr == side and isinstance(node.func.value.value, ast.Name)
+            and node.func.value.value.id == "expr")
+
+
+def _golden_ok(name, fn_nodes):
+    """Compare the AST dump of some functions with the stored one (shape tie for code that is
+    modelled by hand rather than table-driven)."""
+    import json
+    def norm(fn):
+        fn = ast.parse(ast.unparse(fn)).body[0]
+        fn.body = _strip_doc(fn.body) or [ast.Pass()]
+        return ast.unparse(fn)
+    dump = {k: norm(v) for k, v in fn_nodes.items()}
+    path = os.path.join(GOLDEN, name + ".json")
+    if os.environ.get("VERIF_WRITE_GOLDEN") == "1":
+        os.makedirs(GOLDEN, exist_ok=True)
+        with open(path, "w") as f:
+            json.dump(dump, f, indent=1, sort_keys=True)
+    if not os.path.exists(path):
+        return False, [f"golden/{name}.json missing"]
+    with open(path) as f:
+        gold = json.load(f)
+    diff = [k for k in sorted(set(gold) | set(dump)) if gold.get(k) != dump.get(k)]
+    return not diff, [f"{name}: {k} differs from the modelled source" for k in diff]
+
+
+def extract_resolver():
+    res = dict(ops=[], ok=True, why=[])
+
+    def bad(msg):
+        res["ok"] = False
+        res["why"].append(msg)
+
+    try:
+        m = _methods(_src("formulae/resolver.py"), "Resolver")
+    except Exception as e:  # noqa
+        bad(f"cannot parse resolver.py: {e}")
+        return res
+    fn = m.get("visitBinaryExpr")
+    if fn is None:
+        bad("no visitBinaryExpr")
+        return res
+
+    def walk_ifs(stmts):
+        for st in stmts:
+            if isinstance(st, ast.If):
+                yield st
+                yield from walk_ifs(st.orelse)
+
+    for st in walk_ifs(fn.body):
+        t = st.test
+        if not (isinstance(t, ast.Compare) and isinstance(t.left, ast.Name) and t.left.id == "otype"
+                and len(t.ops) == 1 and isinstance(t.ops[0], ast.Eq)
+                and isinstance(t.comparators[0], ast.Constant)):
+            bad("visitBinaryExpr: unexpected test")
+            continue
+        kind = t.comparators[0].value
+        ret = st.body[0] if st.body else None
+        if not (isinstance(ret, ast.Return) and isinstance(ret.value, ast.BinOp)):
+            bad(f"visitBinaryExpr[{kind}]: not `return <left> op <right>`")
+            continue
+        b = ret.value
+        opname = _PYOP.get(type(b.op).__name__)
+        left_ok = _is_accept(b.left, "left")
+        if (not left_ok and isinstance(b.left, ast.Call) and isinstance(b.left.func, ast.Name)
+                and b.left.func.id == "Response" and len(b.left.args) == 1
+                and _is_accept(b.left.args[0], "left") and opname == "add"):
+            left_ok, opname = True, "tilde"
+        if opname is None or not left_ok or not _is_accept(b.right, "right"):
+            bad(f"visitBinaryExpr[{kind}]: operands/operator not recognised")
+            continue
+        res["ops"].append((kind, opname))
+    others = {k: m[k] for k in ("resolve", "visitGroupingExpr", "visitUnaryExpr", "visitCallExpr",
+                                "visitVariableExpr", "visitLiteralExpr", "visitQuotedNameExpr")
+              if k in m}
+    ok, why = _golden_ok("resolver_visitors", others)
+    if not ok:
+        res["ok"] = False
+        res["why"] += why
+    try:
+        md = _src("formulae/model_description.py")
+        fns = {n.name: n for n in md.body if isinstance(n, ast.FunctionDef)}
+        ok, why = _golden_ok("model_description", fns)
+        if not ok:
+            res["ok"] = False
+            res["why"] += why
+    except Exception as e:  # noqa
+        bad(f"model_description.py: {e}")
+    return res
+
+
+def lean_resolver(r):
+    ops = ", ".join(f"(.{k}, .{o})" for k, o in r["ops"])
+    why = "".join(f"\n-- shape: {w}" for w in r["why"])
+    return f"""def resolverOps : Resolver.OpTable := [{ops}]
+
+def resolverShapeOk : Bool := {'true' if r['ok'] else 'false'}{why}
+"""
+
+
 KNOWN_KINDS = None
 
 
 def generate():
-    parts = ["import FormulaeModel.Model.Parser",
+    parts = ["import FormulaeModel.Model.Parser", "import FormulaeModel.Model.Resolver",
              "-- GENERATED by harness/extract_tables.py from the working tree of /repo on every run."
              " Do not edit.",
              "namespace FormulaeModel.Generated", "open FormulaeModel", ""]
     p = extract_parser()
     parts.append(lean_parser_table(p))
+    r = extract_resolver()
+    parts.append(lean_resolver(r))
     parts.append("end FormulaeModel.Generated\n")
-    return "\n".join(parts), dict(parser=p)
+    return "\n".join(parts), dict(parser=p, resolver=r)
 
 
 def main():
